@@ -195,6 +195,73 @@ func runQueryProp(prop string, seed int64, tier string, out string) {
 		}
 	}
 	flush()
+	if prop == "C07" {
+		id = c07PercentSweep(r, tier, out, meta, id, distinct, &shardN)
+	}
 	meta.Distinct = len(distinct)
 	meta.write(out)
+}
+
+// c07PercentSweep: LIMIT p PERCENT [OFFSET k] for many (row count, p) pairs -- the count is
+// ceil((rows+offset) * p / 100) computed in float64, so the exact-integer products (25 rows x 28 %,
+// 50 x 14 %, 200 x 7 % ...) are where a rearranged formula goes one row off
+func c07PercentSweep(r *rand.Rand, tier string, out string, meta *Meta, id int, distinct map[string]bool, shardN *int) int {
+	sizes := []int{25, 50, 100, 200, 40, 75}
+	sc := newScratch()
+	defer sc.Close()
+	tx := newTx(sc.Dir)
+	tx.Flags.SetCPU(1)
+	for si, n := range sizes {
+		shard := &queryShard{}
+		t := &qTable{name: fmt.Sprintf("p%d", n), cols: []string{"c1"}, coq: fmt.Sprintf("pct_t%d", n)}
+		for i := 0; i < n; i++ {
+			t.rows = append(t.rows, []*string{sp(fmt.Sprint(i + 1))})
+		}
+		writeCSV(sc.Path(t.name+".csv"), t.cols, t.rows)
+		shard.defs = append(shard.defs, t.coqDef())
+		var ps []int
+		if tier == "thorough" || si < 2 {
+			for p := 1; p <= 100; p++ {
+				ps = append(ps, p)
+			}
+		} else {
+			for _, p := range r.Perm(100)[:30] {
+				ps = append(ps, p+1)
+			}
+		}
+		for _, p := range ps {
+			off := 0
+			if r.Intn(4) == 0 {
+				off = r.Intn(n / 2)
+			}
+			offS, offC := "", "None"
+			if off > 0 {
+				offS, offC = fmt.Sprintf(" OFFSET %d", off), fmt.Sprintf("(Some (%d))", off)
+			}
+			sql := fmt.Sprintf("SELECT o.c1 FROM %s AS o ORDER BY o.c1 LIMIT %d PERCENT%s", t.name, p, offS)
+			coq := fmt.Sprintf("(Q (BSelect (SrcTable 1 %s) None None None [SExpr (ECol 0)] false) [mkO (OSel 0) Asc None] %s (Some (LimPercent %s, false)))", t.coq, offC, coqFloat(float64(p)))
+			view, err := selectView(tx, sql)
+			var obs string
+			nrows := 0
+			if err != nil {
+				obs = obsRes(nil, err)
+			} else {
+				rows := viewRows(view)
+				nrows = len(rows)
+				obs = "(Ok " + coqValRows(rows) + ")"
+			}
+			shard.cases = append(shard.cases, fmt.Sprintf("mkQ %s false %s %s 2%%N", coqN(id), coq, obs))
+			meta.Cases[fmt.Sprint(id)] = map[string]interface{}{"sql": sql, "table": fmt.Sprintf("%s: c1 = 1..%d", t.name, n), "observed": fmt.Sprintf("%d rows", nrows), "compare": "order-check"}
+			meta.Evaluations++
+			meta.Distribution["shape:percent-sweep"]++
+			distinct[sql] = true
+			id++
+		}
+		name := fmt.Sprintf("cases_C07_pct_%d.v", *shardN)
+		writeFile(out, name, shard.render())
+		meta.Shards = append(meta.Shards, name)
+		*shardN++
+	}
+	_ = tx.ReleaseResources()
+	return id
 }
